@@ -53,10 +53,20 @@ def main():
             rows.append((d, title, caught, res.get('error')))
             print('%s %-7s %s' % ('CAUGHT' if ok else 'MISSED', d, caught or res.get('error') or {c: v['exit'] for c, v in res.get('checks', {}).items()}), flush=True)
     if a.markdown:
+        lines = {}
+        for d, title, caught, err in rows:
+            cell = '; '.join('%s: %s' % (c, ', '.join(m)) for c, m in caught.items()) or (
+                'not judged' if title.startswith(('obsolete', 'outside the property')) else 'MISSED')
+            lines[d] = '| %s | %s | %s |\n' % (d, title.replace('|', '/'), cell)
+        if a.only and os.path.exists(a.markdown):
+            # rows of a partial run replace the rows of the same changes in the existing table
+            old = {l.split('|')[1].strip(): l for l in open(a.markdown) if l.startswith('| C')}
+            old.update(lines)
+            lines = old
         with open(a.markdown, 'w') as f:
             f.write('| change | summary (first line of its notes) | caught by: mechanisms |\n|---|---|---|\n')
-            for d, title, caught, err in rows:
-                f.write('| %s | %s | %s |\n' % (d, title.replace('|', '/'), '; '.join('%s: %s' % (c, ', '.join(m)) for c, m in caught.items()) or 'MISSED'))
+            for d in sorted(lines):
+                f.write(lines[d])
     return 1 if missed else 0
 
 
